@@ -275,9 +275,8 @@ LabABC == <<"a", "b", "c">>
 NoScript == <<>>
 \* scenario skeletons: step i may only take an action of Script[i]; afterwards any action of Acts
 \* series churn (gc / eviction), WAL segments, checkpoint, restart, new series
-ScriptCkpt == <<{"Scrape"}, {"Cut"}, {"Scrape", "EvictSel", "OOO"}, {"Cut"}, {"Scrape", "EvictSel", "Mmap"}, {"Cut", "Scrape"},
-                {"CompactHead"}, {"CompactOOO", "CompactHead", "Cut", "Scrape"}, {"Restart", "Crash"}, {"Scrape"},
-                {"Restart", "Crash", "CompactHead"}, {"Scrape", "Cross"}>>
+ScriptCkpt == <<{"Scrape"}, {"Cut"}, {"Scrape", "OOO"}, {"Cut"}, {"EvictSel", "Scrape", "Mmap"}, {"Scrape", "EvictSel"}, {"Cut"},
+                {"CompactHead"}, {"Restart", "Crash", "CompactOOO"}, {"Scrape"}, {"Restart", "Crash", "CompactHead"}, {"Scrape", "Cross"}>>
 \* fast startup on/off, series_state.json ticks, snapshots, clean and unclean restarts
 ScriptFast == <<{"Scrape"}, {"Tick", "Scrape", "Restart"}, {"Scrape", "EvictSel", "CompactHead"}, {"Restart", "Crash", "Tick"},
                 {"Scrape", "EvictSel"}, {"Restart", "Crash"}, {"Scrape"}, {"Restart", "Crash"}, {"Scrape", "Cross"}>>
@@ -583,97 +582,112 @@ ScanLast(sg, fst, i, lo, dflt) ==
 AllChunks(fl) == Flat([i \in 1..Cardinality(DOMAIN fl) |-> fl[AscSeq(DOMAIN fl)[i]]])
 FileOf(fl, n) == CHOOSE f \in DOMAIN fl : \E c \in Range(fl[f]) : c.n = n
 
-\* the state after tsdb.Open on the given disk state; sg already includes the segment created by wlog.New
+\* ---- tsdb.Open on a given disk state, as a chain of steps (each passes its results on as arguments)
+\* the result: the head after Init
+Open7(mv, st2, lo2, hi1, g, snDel) ==
+  [ser |-> g.ser, byRef |-> g.byRef, lastID |-> st2.lastID, exp |-> g.exp,
+   hMin |-> lo2, hMax |-> hi1, minValid |-> mv, D |-> st2.D, snapDeleted |-> snDel]
+\* deferred in Head.Init: minTime below minValidTime is raised, then h.gc()
+Open6(mv, st2, lo1, hi1, snDel) ==
+  Open7(mv, st2, IF lo1 # INF /\ lo1 < mv THEN mv ELSE lo1, hi1,
+        GC(st2.ser, st2.byRef, st2.exp, IF lo1 # INF /\ lo1 < mv THEN mv ELSE lo1, 0), snDel)
+\* min/max time: reload() -> Head.Truncate(blkMax) on the uninitialised head, then whatever was loaded
+Open5(mv, st2, snTs, snDel) ==
+  Open6(mv, st2,
+        Min2(Min2(IF mv # NEG THEN mv ELSE INF, st2.lo), MinOr(snTs, INF)),
+        Max2(Max2(IF mv # NEG THEN mv ELSE NEG, st2.hi), MaxOr(snTs, NEG)), snDel)
+\* replay: checkpoint and segments (Head.loadWAL), then the WBL (Head.loadWBL)
+Open4(mv, st0, es, wb, snTs, snDel) == Open5(mv, WFold(RFold(st0, es, 1), wb, 1), snTs, snDel)
+\* which entries are replayed: the checkpoint if it is not behind the snapshot, then the segments from `start`
+\* (from the snapshot offset within segment snIdx)
+Open3b(sg, fst, c, sn, snIdx, useCp, start) ==
+  (IF useCp THEN c.es ELSE <<>>) \o
+  Flat([i \in 1..Len(sg) |-> IF fst + i - 1 < start THEN <<>>
+                              ELSE IF fst + i - 1 = snIdx THEN SubSeq(sg[i], sn.off + 1, Len(sg[i]))
+                              ELSE sg[i]])
+Open3a(sg, fst, c, sn, snIdx, useCp) ==
+  Open3b(sg, fst, c, sn, snIdx, useCp,
+         Max2(Max2(IF c.idx >= 0 THEN (IF useCp THEN c.idx + 1 ELSE c.idx) ELSE fst, snIdx), fst))
+Entries(sg, fst, c, sn, snIdx) == Open3a(sg, fst, c, sn, snIdx, c.idx >= 0 /\ c.idx >= snIdx)
+\* fast startup: series_state.json is read after the snapshot and the m-map chunks and *stored* into lastSeriesID
+FastID(sg, fst, endAt, ss, fast, snLast) ==
+  IF fast /\ ss.ok
+    THEN IF ss.clean THEN ss.last                                       \* h.lastSeriesID.Store(state.LastSeriesID)
+         ELSE ScanLast(sg, fst, endAt, Max2(0, ss.seg), ss.last)        \* findLastSeriesID
+    ELSE snLast
+Open3(sg, fst, c, wb, fl, mv, sn, ss, fast, cn0, useSn, snSer2, snRef, snLast, mmi, mmo, endAt) ==
+  Open4(mv,
+        RP0(snSer2, snRef, FastID(sg, fst, endAt, ss, fast, snLast), [files |-> fl, curF |-> 0, cutNext |-> FALSE, cn |-> cn0], mmi, mmo, mv),
+        Entries(sg, fst, c, sn, IF useSn THEN sn.idx ELSE -1), wb,
+        UNION {{x.t : x \in Ino(snSer2[l])} : l \in Labs},
+        Snap /\ sn.ok /\ endAt < sn.idx)
+\* loadMmappedChunks: in-order chunks below minValidTime are skipped, out-of-order chunks never; chunks of series that
+\* the snapshot created are attached at once (a head chunk covered by an m-mapped chunk is dropped), the others are kept
+\* by ref until a series record with that ref is replayed
+ToCh(fl, k) == [lo |-> k.lo, s |-> k.s, f |-> FileOf(fl, k.n), n |-> k.n]
+ToOo(fl, k) == [f |-> FileOf(fl, k.n), n |-> k.n, s |-> k.s]
+Attach1(fl, o, ic, oc, drop) ==
+  [o EXCEPT !.ch = (IF drop THEN {} ELSE o.ch) \cup ic, !.oom = oc, !.nextAt = IF drop THEN 0 ELSE @]
+Attach0(fl, o, ic, oc) ==
+  Attach1(fl, o, ic, oc, ic # {} /\ o.ch # {} /\ SetMax({ChMax(k) : k \in ic}) >= SetMin({k.lo : k \in o.ch}))
+Attach(fl, o, okc) ==
+  IF ~o.ex THEN o
+  ELSE Attach0(fl, o, {ToCh(fl, k) : k \in {k \in Range(okc) : k.r = o.r /\ ~k.ooo}},
+                      {ToOo(fl, k) : k \in {k \in Range(okc) : k.r = o.r /\ k.ooo}})
+Open2(sg, fst, c, wb, fl, mv, sn, ss, fast, cn0, useSn, snSer, snRef, snLast, okc, crefs, endAt) ==
+  Open3(sg, fst, c, wb, fl, mv, sn, ss, fast, cn0, useSn,
+        [l \in Labs |-> Attach(fl, snSer[l], okc)], snRef, snLast,
+        [r \in crefs \ DOMAIN snRef |-> {ToCh(fl, k) : k \in {k \in Range(okc) : k.r = r /\ ~k.ooo}}],
+        [r \in crefs \ DOMAIN snRef |-> {ToOo(fl, k) : k \in {k \in Range(okc) : k.r = r /\ k.ooo}}], endAt)
+Open1b(sg, fst, c, wb, fl, mv, sn, ss, fast, cn0, useSn, snSer, snRef, snLast, okc, endAt) ==
+  Open2(sg, fst, c, wb, fl, mv, sn, ss, fast, cn0, useSn, snSer, snRef, snLast, okc, {k.r : k \in Range(okc)}, endAt)
+\* loadChunkSnapshot: the series of the by-ref map at shutdown with their newest head chunk; raises lastSeriesID
+SnapObj(x) ==
+  [NewObj(x.r) EXCEPT !.ch = IF x.hc = {} THEN {} ELSE {[lo |-> SetMin({y.t : y \in x.hc}), s |-> x.hc, f |-> 0, n |-> 0]},
+                      !.nextAt = IF x.hc = {} THEN NEG ELSE SetMax({y.t : y \in x.hc}),     \* the next append cuts a new chunk
+                      !.ls = x.ls]
+Open1(sg, fst, c, wb, fl, mv, sn, ss, fast, cn0, useSn, endAt) ==
+  Open1b(sg, fst, c, wb, fl, mv, sn, ss, fast, cn0, useSn,
+         [l \in Labs |-> IF useSn /\ \E x \in sn.sers : x.l = l THEN SnapObj(CHOOSE x \in sn.sers : x.l = l) ELSE NoObj],
+         IF useSn THEN [r \in {x.r : x \in sn.sers} |-> (CHOOSE x \in sn.sers : x.r = r).l] ELSE <<>>,
+         IF useSn THEN MaxOr({x.r : x \in sn.sers}, 0) ELSE 0,
+         SelectSeq(AllChunks(fl), LAMBDA k : k.ooo \/ SetMax({x.t : x \in k.s}) >= mv), endAt)
+\* sg already includes the segment created by wlog.New; minValidTime = inOrderBlocksMaxTime; the snapshot is used
+\* unless the WAL is behind it
 OpenState(sg, fst, c, wb, fl, bmax, sn, ss, fast, cn0) ==
-  LET mv     == bmax                                                \* minValidTime = inOrderBlocksMaxTime
-      endAt  == fst + Len(sg) - 1
-      useSn  == Snap /\ sn.ok /\ ~(endAt < sn.idx)
-      \* loadChunkSnapshot: series with their newest head chunk
-      snSer  == [l \in Labs |-> IF useSn /\ \E s \in sn.sers : s.l = l
-                                THEN LET s == CHOOSE s \in sn.sers : s.l = l IN
-                                     [NewObj(s.r) EXCEPT !.ch = IF s.hc = {} THEN {} ELSE {[lo |-> SetMin({x.t : x \in s.hc}), s |-> s.hc, f |-> 0, n |-> 0]},
-                                                         !.nextAt = IF s.hc = {} THEN NEG ELSE SetMax({x.t : x \in s.hc}), !.ls = s.ls]
-                                ELSE NoObj]
-      snRef  == IF useSn THEN [r \in {s.r : s \in sn.sers} |-> (CHOOSE s \in sn.sers : s.r = r).l] ELSE <<>>
-      snLast == IF useSn THEN MaxOr({s.r : s \in sn.sers}, 0) ELSE 0
-      \* loadMmappedChunks
-      chs    == AllChunks(fl)
-      okc    == SelectSeq(chs, LAMBDA k : k.ooo \/ SetMax({x.t : x \in k.s}) >= mv)
-      toCh(k) == [lo |-> k.lo, s |-> k.s, f |-> FileOf(fl, k.n), n |-> k.n]
-      toOo(k) == [f |-> FileOf(fl, k.n), n |-> k.n, s |-> k.s]
-      crefs  == {k.r : k \in Range(okc)}
-      mmi    == [r \in crefs \ DOMAIN snRef |-> {toCh(k) : k \in {k \in Range(okc) : k.r = r /\ ~k.ooo}}]
-      mmo    == [r \in crefs \ DOMAIN snRef |-> {toOo(k) : k \in {k \in Range(okc) : k.r = r /\ k.ooo}}]
-      \* chunks of snapshot series are attached directly; a head chunk covered by an m-mapped chunk is dropped
-      snSer2 == [l \in Labs |->
-                   IF ~snSer[l].ex THEN snSer[l]
-                   ELSE LET mine == {k \in Range(okc) : k.r = snSer[l].r}
-                            ic == {toCh(k) : k \in {k \in mine : ~k.ooo}}
-                            oc == {toOo(k) : k \in {k \in mine : k.ooo}}
-                            hcs == snSer[l].ch
-                            drop == ic # {} /\ hcs # {} /\ SetMax({ChMax(k) : k \in ic}) >= SetMin({k.lo : k \in hcs})
-                        IN [snSer[l] EXCEPT !.ch = (IF drop THEN {} ELSE hcs) \cup ic, !.oom = oc, !.nextAt = IF drop THEN 0 ELSE @]]
-      \* fast startup: series_state.json
-      lid0   == snLast
-      lid1   == IF fast /\ ss.ok
-                  THEN IF ss.clean THEN ss.last                                       \* h.lastSeriesID.Store(state.LastSeriesID)
-                       ELSE ScanLast(sg, fst, endAt, Max2(0, ss.seg), ss.last)        \* findLastSeriesID
-                  ELSE lid0
-      snIdx  == IF useSn THEN sn.idx ELSE -1
-      useCp  == c.idx >= 0 /\ c.idx >= snIdx
-      start0 == IF c.idx >= 0 THEN (IF useCp THEN c.idx + 1 ELSE c.idx) ELSE fst
-      start  == Max2(Max2(start0, snIdx), fst)
-      \* entries replayed: checkpoint, then segments from start (from the snapshot offset in segment snIdx)
-      segEs  == Flat([i \in 1..Len(sg) |->
-                        IF fst + i - 1 < start THEN <<>>
-                        ELSE IF fst + i - 1 = snIdx THEN SubSeq(sg[i], sn.off + 1, Len(sg[i]))
-                        ELSE sg[i]])
-      es     == (IF useCp THEN c.es ELSE <<>>) \o segEs
-      D00    == [files |-> fl, curF |-> 0, cutNext |-> FALSE, cn |-> cn0]
-      st0    == RP0(snSer2, snRef, lid1, D00, mmi, mmo, mv)
-      \* min/max time: reload() -> Head.Truncate(blkMax) on the uninitialised head, then the loaded data
-      st1    == RFold(st0, es, 1)
-      st2    == WFold(st1, wb, 1)
-      snTs   == UNION {{x.t : x \in Ino(snSer2[l])} : l \in Labs}
-      lo0    == IF bmax # NEG THEN bmax ELSE INF
-      hi0    == IF bmax # NEG THEN bmax ELSE NEG
-      lo1    == Min2(Min2(lo0, st2.lo), MinOr(snTs, INF))
-      hi1    == Max2(Max2(hi0, st2.hi), MaxOr(snTs, NEG))
-      lo2    == IF lo1 # INF /\ lo1 < mv THEN mv ELSE lo1                 \* deferred: minTime below minValidTime
-      \* deferred h.gc()
-      g      == GC(st2.ser, st2.byRef, st2.exp, lo2, 0)
-  IN [ser |-> g.ser, byRef |-> g.byRef, lastID |-> st2.lastID, exp |-> g.exp,
-      hMin |-> lo2, hMax |-> hi1, minValid |-> mv, D |-> st2.D, snapDeleted |-> (Snap /\ sn.ok /\ endAt < sn.idx)]
+  Open1(sg, fst, c, wb, fl, bmax, sn, ss, fast, cn0, Snap /\ sn.ok /\ ~(fst + Len(sg) - 1 < sn.idx), fst + Len(sg) - 1)
 
-\* DB.Close: series_state.json (clean), m-map all but the newest head chunk, flush, snapshot
+\* DB.Close (series_state.json clean, m-map all but the newest head chunk, flush, snapshot) or a kill, then tsdb.Open
+Reopen3(kind, fast, fl1, sst1, sn1, sg1, os, kf) ==
+  /\ kf \subseteq AllowKF
+  /\ kfset' = kfset \cup kf
+  /\ ser' = os.ser /\ byRef' = os.byRef /\ lastID' = os.lastID /\ exp' = os.exp
+  /\ hMin' = os.hMin /\ hMax' = os.hMax /\ minValid' = os.minValid
+  /\ lastTr' = NEG /\ minOOO' = 0 /\ issued' = [l \in Labs |-> {}]
+  /\ curF' = os.D.curF /\ cutNext' = os.D.cutNext /\ files' = os.D.files /\ cn' = os.D.cn
+  /\ fastOn' = fast
+  /\ segs' = sg1 /\ sst' = sst1
+  /\ snap' = IF os.snapDeleted THEN [sn1 EXCEPT !.ok = FALSE] ELSE sn1
+  /\ UNCHANGED <<first, cp, wbl, blk, blkMax, clk>>
+  /\ Step([a |-> kind, fast |-> fast, predisk |-> FilesJ(fl1), sst |-> sst1, snapok |-> sn1.ok])
+\* the allocator restarts below a reference that is bound to a series: the next new series will collide with it (KF-C22-2)
+Reopen2(kind, fast, fl1, sst1, sn1, sg1, os) ==
+  Reopen3(kind, fast, fl1, sst1, sn1, sg1, os, IF \E r \in DOMAIN os.byRef : r > os.lastID THEN {"KF-C22-2"} ELSE {})
+Reopen1(kind, fast, clean, pm, fl1, sst1, sn1, sg1) ==
+  Reopen2(kind, fast, fl1, sst1, sn1, sg1, OpenState(sg1, first, cp, wbl, fl1, blkMax, sn1, sst1, fast, pm[2].cn))
+SnapOf(sr1) ==
+  [ok |-> TRUE, idx |-> LastSeg, off |-> Len(segs[Len(segs)]),
+   sers |-> {[r |-> r, l |-> byRef[r], hc |-> UNION {k.s : k \in HeadCh(sr1[byRef[r]])}, ls |-> sr1[byRef[r]].ls] :
+               r \in {r \in DOMAIN byRef : sr1[byRef[r]].ex /\ sr1[byRef[r]].r = r}}]
+Reopen0(kind, fast, clean, pm) ==
+  Reopen1(kind, fast, clean, pm,
+          \* a killed process loses the chunks still buffered for the current head-chunk file (the file has only its header)
+          IF clean \/ curF = 0 THEN pm[2].files ELSE [files EXCEPT ![curF] = <<>>],
+          IF clean /\ fastOn THEN [ok |-> TRUE, last |-> lastID, seg |-> LastSeg, clean |-> TRUE] ELSE sst,
+          IF clean /\ Snap THEN SnapOf(pm[1]) ELSE snap,
+          Append(segs, <<>>))                                    \* wlog.NewSize: a new segment on every start
 Reopen(kind, fast) ==
-  LET clean == kind = "Restart"
-      pm    == IF clean THEN MmapAll(ser, byRef, D0, AscSeq(DOMAIN byRef)) ELSE <<ser, D0>>
-      sr1   == pm[1]
-      \* a killed process loses the chunks still buffered for the current head-chunk file (the file has only its header)
-      fl1   == IF clean \/ curF = 0 THEN pm[2].files ELSE [files EXCEPT ![curF] = <<>>]
-      sst1  == IF clean /\ fastOn THEN [ok |-> TRUE, last |-> lastID, seg |-> LastSeg, clean |-> TRUE] ELSE sst
-      sn1   == IF clean /\ Snap
-                 THEN [ok |-> TRUE, idx |-> LastSeg, off |-> Len(segs[Len(segs)]),
-                       sers |-> {[r |-> r, l |-> byRef[r],
-                                  hc |-> UNION {k.s : k \in HeadCh(sr1[byRef[r]])}, ls |-> sr1[byRef[r]].ls] : r \in {r \in DOMAIN byRef : sr1[byRef[r]].ex /\ sr1[byRef[r]].r = r}}]
-                 ELSE snap
-      sg1   == Append(segs, <<>>)                                    \* wlog.NewSize: a new segment on every start
-      os    == OpenState(sg1, first, cp, wbl, fl1, blkMax, sn1, sst1, fast, pm[2].cn)
-      \* the allocator restarts below a reference that is bound to a series: the next new series will collide with it
-      low   == \E r \in DOMAIN os.byRef : r > os.lastID
-      kf    == IF low THEN {"KF-C22-2"} ELSE {}
-  IN /\ kf \subseteq AllowKF
-     /\ kfset' = kfset \cup kf
-     /\ ser' = os.ser /\ byRef' = os.byRef /\ lastID' = os.lastID /\ exp' = os.exp
-     /\ hMin' = os.hMin /\ hMax' = os.hMax /\ minValid' = os.minValid
-     /\ lastTr' = NEG /\ minOOO' = 0 /\ issued' = [l \in Labs |-> {}]
-     /\ curF' = os.D.curF /\ cutNext' = os.D.cutNext /\ files' = os.D.files /\ cn' = os.D.cn
-     /\ fastOn' = fast
-     /\ segs' = sg1 /\ sst' = sst1
-     /\ snap' = IF os.snapDeleted THEN [sn1 EXCEPT !.ok = FALSE] ELSE sn1
-     /\ UNCHANGED <<first, cp, wbl, blk, blkMax, clk>>
-     /\ Step([a |-> kind, fast |-> fast, predisk |-> FilesJ(fl1), sst |-> sst1, snapok |-> sn1.ok])
+  Reopen0(kind, fast, kind = "Restart", IF kind = "Restart" THEN MmapAll(ser, byRef, D0, AscSeq(DOMAIN byRef)) ELSE <<ser, D0>>)
 
 Restart(fast) == "Restart" \in Allowed /\ Reopen("Restart", fast)
 Crash(fast)   == "Crash" \in Allowed /\ Reopen("Crash", fast)
@@ -731,6 +745,11 @@ AppendRight == [][ (hist' # hist /\ kfset' = {} /\ hist'[Len(hist')].a \in {"Scr
 -----------------------------------------------------------------------------
 (* Emission *)
 LastRec == hist'[Len(hist')]
+\* the label sets for which the highest allocated reference is still carried
+KeptLabs == LET r == lastID IN
+            {e.l : e \in {e \in Range(AllEntries) : e.r = r /\ e.k \in {"S", "T"}}}
+            \cup UNION {e.x.o : e \in {e \in Range(AllEntries) : e.r = r /\ e.k = "D"}}
+            \cup UNION {UNION {UNION {x.o : x \in c.s} : c \in {c \in Range(files[f]) : c.r = r}} : f \in DOMAIN files}
 \* what still carries the highest allocated reference (i.e. what would keep the allocator up across a restart)
 KeptBy == LET r == lastID IN
           (IF \E e \in Range(cp.es) : e.r = r /\ e.k = "S" THEN {"cpS"} ELSE {})
@@ -743,7 +762,7 @@ KeptBy == LET r == lastID IN
 Class ==
   LET r == LastRec IN
   IF r.a \in {"Scrape", "Cross", "OOO"} THEN
-       <<r.a, {<<p.creat, p.arg = 0, p.arg # 0 /\ p.arg \notin DOMAIN byRef, p.tl = p.l, p.reuse, p.ret = lastID + 1>> : p \in Range(r.apps)},
+       <<r.a, {<<p.creat, p.arg = 0, p.arg # 0 /\ p.arg \notin DOMAIN byRef, p.tl = p.l, p.reuse, p.ret = lastID + 1, p.creat /\ p.l \in KeptLabs>> : p \in Range(r.apps)},
          cp.idx >= 0, KeptBy, UNION {issued[l] : l \in Labs} = {}, kfset' # {}>>
   ELSE IF r.a = "CompactHead" THEN <<r.a, ser' # ser, cp' # cp, Len(cp'.es) < Len(cp.es) + Len(Flat(segs)), files' # files, DOMAIN exp' # DOMAIN exp, kfset # {}>>
   ELSE IF r.a = "CompactOOO" THEN <<r.a, DOMAIN byRef' # DOMAIN byRef, DOMAIN files' # DOMAIN files, kfset # {}>>
